@@ -28,7 +28,7 @@ def run_driver(chk, behaviours, label, flavour="plain"):
                         len(p.get("loc", [])), len(p.get("pend", []))])
     if events:
         chk.sample({"source": label, "first_events": [{k: v for k, v in e.items() if k != "proj"} for e in events[:10]]})
-    vlib.report_trace_violations(chk, res, events, label=label)
+    vlib.report_trace_violations(chk, res, events, label=label, behaviours=behaviours, harness="nodettl")
     log("[trace] %s: %d behaviours, %d events, %d clause failures" % (label, nb, len(events), len(res.get("viol", []))))
     return res, events
 
